@@ -1,4 +1,4 @@
-import Spade.Proofs.LinkInv.Base
+import Spade.Proofs.CcwBase
 namespace Spade
 namespace St
 
@@ -112,6 +112,97 @@ theorem LInv.itCore {s : St} (hs : LInv s) (f0 : Nat) (p : Pt) (d : Nat) (hf0 : 
     unfold St.itCore
     rcases hx' with h | h | h <;> subst h
     all_goals (refine ⟨?_, ?_⟩ <;> evw [b_0, b_1, b_2, d_0_1, d_0_1.symm, d_0_2, d_0_2.symm, d_1_2, d_1_2.symm, n_0, (n_0 _).symm, m_0, m_0.symm, u_0, n_1, (n_1 _).symm, m_1, m_1.symm, u_1, n_2, (n_2 _).symm, m_2, m_2.symm, u_2, hf] <;> grind)
+
+set_option maxHeartbeats 4000000 in
+/-- inserting a vertex strictly inside an inner face keeps every inner face counter-clockwise -/
+theorem CInv.itCore_ccw {s : St} (hc : CInv s) (f0 : Nat) (p : Pt) (d : Nat) (hf0 : 0 < f0) (hf : f0 < s.nF) (hgeo : StrictlyInsideTri (s.A (s.fe f0)) (s.B (s.fe f0)) (s.C (s.fe f0)) p) :
+    ∀ x, x < (itCore s (s.fe f0) (s.nxt (s.fe f0)) (s.nxt (s.nxt (s.fe f0)))
+      (s.org (s.fe f0)) (s.org (s.nxt (s.fe f0))) (s.org (s.nxt (s.nxt (s.fe f0)))) f0 p d).nE → CcwE (itCore s (s.fe f0) (s.nxt (s.fe f0)) (s.nxt (s.nxt (s.fe f0)))
+      (s.org (s.fe f0)) (s.org (s.nxt (s.fe f0))) (s.org (s.nxt (s.nxt (s.fe f0)))) f0 p d) x := by
+  have hs := hc.links
+  have ev0 := hs.even
+  obtain ⟨b_0, hfc⟩ := hs.anchor f0 hf0 hf
+  have hfc0 : s.fc (s.fe f0) ≠ 0 := by omega
+  obtain ⟨b_1, b_2, a3, a4, a5, a6, a7, a8, d_0_1, d_0_2, d_1_2⟩ := hs.tri b_0 hfc0
+  have E0 := hs.edge _ b_0
+  have E1 := hs.edge _ b_1
+  have E2 := hs.edge _ b_2
+  have l0 := hs.rv_lt b_0
+  have l1 := hs.rv_lt b_1
+  have l2 := hs.rv_lt b_2
+  unfold StrictlyInsideTri A B C opp dst at hgeo
+  have hv1 : s.org (s.rv (s.fe f0)) = s.org (s.nxt (s.fe f0)) := E0.2.2.2.2.2.2.2.2.1.symm
+  have hv2 : s.org (s.rv (s.nxt (s.fe f0))) = s.org (s.prv (s.fe f0)) := by
+    have := E1.2.2.2.2.2.2.2.2.1; rw [a3] at this; exact this.symm
+  have hv0 : s.org (s.rv (s.prv (s.fe f0))) = s.org (s.fe f0) := by
+    have := E2.2.2.2.2.2.2.2.2.1; rw [a4] at this; exact this.symm
+  simp only [hv1] at hgeo
+  obtain ⟨g1, g2, g3⟩ := hgeo
+  have g1a := g1; rw [← orient_rot] at g1a
+  have g1b := g1a; rw [← orient_rot] at g1b
+  have g2a := g2; rw [← orient_rot] at g2a
+  have g2b := g2a; rw [← orient_rot] at g2b
+  have g3a := g3; rw [← orient_rot] at g3a
+  have g3b := g3a; rw [← orient_rot] at g3b
+  generalize he0 : s.fe f0 = e0 at *
+  generalize he1 : s.nxt e0 = e1 at *
+  rw [a3]
+  generalize he2 : s.prv e0 = e2 at *
+  have n_0 : ∀ k, s.nE + k ≠ e0 := by intro k; omega
+  have m_0 : s.nE ≠ e0 := by omega
+  have u_0 : ∀ k, e0 < s.nE + k := by intro k; omega
+  have n_1 : ∀ k, s.nE + k ≠ e1 := by intro k; omega
+  have m_1 : s.nE ≠ e1 := by omega
+  have u_1 : ∀ k, e1 < s.nE + k := by intro k; omega
+  have n_2 : ∀ k, s.nE + k ≠ e2 := by intro k; omega
+  have m_2 : s.nE ≠ e2 := by omega
+  have u_2 : ∀ k, e2 < s.nE + k := by intro k; omega
+  have L_0 := hs.rv_lt b_0
+  have rvn_0 : ∀ k, s.rv e0 ≠ s.nE + k := by intro k; omega
+  have rvm_0 : s.rv e0 ≠ s.nE := by omega
+  have on_0 : s.org e0 ≠ s.nV := by have := (hs.edge _ b_0).1; omega
+  have orn_0 : s.org (s.rv e0) ≠ s.nV := by have := (hs.edge _ L_0).1; omega
+  have L_1 := hs.rv_lt b_1
+  have rvn_1 : ∀ k, s.rv e1 ≠ s.nE + k := by intro k; omega
+  have rvm_1 : s.rv e1 ≠ s.nE := by omega
+  have on_1 : s.org e1 ≠ s.nV := by have := (hs.edge _ b_1).1; omega
+  have orn_1 : s.org (s.rv e1) ≠ s.nV := by have := (hs.edge _ L_1).1; omega
+  have L_2 := hs.rv_lt b_2
+  have rvn_2 : ∀ k, s.rv e2 ≠ s.nE + k := by intro k; omega
+  have rvm_2 : s.rv e2 ≠ s.nE := by omega
+  have on_2 : s.org e2 ≠ s.nV := by have := (hs.edge _ b_2).1; omega
+  have orn_2 : s.org (s.rv e2) ≠ s.nV := by have := (hs.edge _ L_2).1; omega
+  have szE : (s.itCore e0 e1 e2 (s.org e0) (s.org e1) (s.org e2) f0 p d).nE = s.nE + 6 := by unfold St.itCore; evw [b_0, b_1, b_2, d_0_1, d_0_1.symm, d_0_2, d_0_2.symm, d_1_2, d_1_2.symm, n_0, (n_0 _).symm, m_0, m_0.symm, u_0, n_1, (n_1 _).symm, m_1, m_1.symm, u_1, n_2, (n_2 _).symm, m_2, m_2.symm, u_2]
+  intro x hx hfx
+  rw [szE] at hx
+  by_cases hT : x = e0 ∨ x = e1 ∨ x = e2 ∨ x = s.nE ∨ x = s.nE + 1 ∨ x = s.nE + 2 ∨ x = s.nE + 3 ∨ x = s.nE + 4 ∨ x = s.nE + 5
+  · unfold St.itCore at hfx ⊢
+    unfold CcwE A B C opp dst EdgeOK at *
+    rcases hT with h | h | h | h | h | h | h | h | h <;> subst h
+    all_goals (revert hfx; evw [b_0, b_1, b_2, d_0_1, d_0_1.symm, d_0_2, d_0_2.symm, d_1_2, d_1_2.symm, n_0, (n_0 _).symm, m_0, m_0.symm, u_0, n_1, (n_1 _).symm, m_1, m_1.symm, u_1, n_2, (n_2 _).symm, m_2, m_2.symm, u_2, he1, he2, a3, a4, a5, a6, hv0, hv1, hv2, rvn_0, rvm_0, on_0, orn_0, rvn_1, rvm_1, on_1, orn_1, rvn_2, rvm_2, on_2, orn_2]; intro hfx; grind (splits := 40))
+  · simp only [not_or] at hT
+    obtain ⟨t_0, t_1, t_2, t_3, t_4, t_5, t_6, t_7, t_8⟩ := hT
+    have hlt : x < s.nE := by omega
+    have Ex := hs.edge x hlt
+    have rx := hs.rv_rv hlt
+    have lx := hs.rv_lt hlt
+    have kx := hc.ccw x hlt
+    have hin : ∀ k, x ≠ s.nE + k := by intro k; omega
+    have hi0 : x ≠ s.nE := by omega
+    have px := (hs.edge x hlt).2.2.1
+    have y1 : ∀ k, s.rv x ≠ s.nE + k := by intro k; omega
+    have y2 : s.rv x ≠ s.nE := by omega
+    have y3 : ∀ k, s.prv x ≠ s.nE + k := by intro k; omega
+    have y4 : s.prv x ≠ s.nE := by omega
+    have y5 : s.org x ≠ s.nV := by have := (hs.edge x hlt).1; omega
+    have y6 : s.org (s.rv x) ≠ s.nV := by have := (hs.edge _ lx).1; omega
+    have y7 : s.org (s.prv x) ≠ s.nV := by have := (hs.edge _ px).1; omega
+    unfold St.itCore at hfx ⊢
+    unfold CcwE A B C opp dst EdgeOK at *
+    revert hfx
+    evw [b_0, b_1, b_2, d_0_1, d_0_1.symm, d_0_2, d_0_2.symm, d_1_2, d_1_2.symm, n_0, (n_0 _).symm, m_0, m_0.symm, u_0, n_1, (n_1 _).symm, m_1, m_1.symm, u_1, n_2, (n_2 _).symm, m_2, m_2.symm, u_2, t_0, t_1, t_2, hin, hi0, hlt, y1, y2, y3, y4, y5, y6, y7]
+    intro hfx
+    grind (splits := 40)
 
 end St
 end Spade
